@@ -110,6 +110,7 @@ pub fn f7_tw_newchunk<const M: usize, const TRY: bool>() {
         drops_reset();
         calls_reset();
         pool_reset(0);
+        super::f6::CHUNK_ALIGN_OVERRIDE = 16;
         DISPLACE = 1;
         let cur = super::f6::build_list_at::<M, 1>(16); // 16 bytes free in a 448-byte chunk
         let bump = ManuallyDrop::new(Bump::<M> {
@@ -117,7 +118,9 @@ pub fn f7_tw_newchunk<const M: usize, const TRY: bool>() {
             allocation_limit: Cell::new(None),
         });
         let code: u32 = kani::any();
-        type T = [u8; 200];
+        // Result<T, E> is exactly the default chunk size (448 bytes): if anything less than the whole
+        // slot is handed back, the follow-up request of the same layout cannot be served
+        type T = [u64; 55];
         let f = || -> Result<T, E> {
             note_call(0);
             Err(E(code, D(3)))
@@ -323,6 +326,103 @@ pub fn f7_try_fill_nested<const M: usize>() {
         }
         kani::cover!(!was_ok, "REACH: slice initialiser failed after allocating");
         kani::cover!(was_ok, "REACH: slice initialiser succeeded after allocating");
+    }
+}
+
+/// C11/C01/C10: the Result slot forces a new chunk, the initialiser allocates in the arena
+/// (lands in the new chunk), keeps the block and fails: the kept block must stay allocated.
+pub fn f7_tw_newchunk_nested<const M: usize, const TRY: bool>() {
+    unsafe {
+        drops_reset();
+        calls_reset();
+        pool_reset(0);
+        super::f6::CHUNK_ALIGN_OVERRIDE = 16;
+        DISPLACE = 0;
+        let cur = super::f6::build_list_at::<M, 1>(16);
+        let bump = ManuallyDrop::new(Bump::<M> {
+            current_chunk_footer: Cell::new(cur),
+            allocation_limit: Cell::new(None),
+        });
+        let b: &Bump<M> = &bump;
+        let val: u32 = kani::any();
+        let mut kept: *mut u32 = core::ptr::null_mut();
+        let kp = &mut kept as *mut *mut u32;
+        type T = [u8; 200];
+        let f = || -> Result<T, u32> {
+            note_call(0);
+            // the nested allocation fits the freshly acquired chunk: the global allocator is out of
+            // the picture for it (leaving it reachable ran out of memory)
+            FORBID_ALLOC = true;
+            *kp = b.alloc(val) as *mut u32;
+            FORBID_ALLOC = false;
+            Err(5)
+        };
+        let failed = if TRY { b.try_alloc_try_with(f).is_err() } else { b.alloc_try_with(f).is_err() };
+        vassert!(failed && CALLS == 1, "NEVER: [C11] failing initialiser did not produce its error");
+        vassert!(NREC == 2, "NEVER: [C11] expected exactly one new chunk");
+        let nf = bump.current_chunk_footer.get();
+        let fp = nf.as_ref().ptr.get().as_ptr() as usize;
+        let fa = nf.as_ptr() as usize;
+        let k = kept as usize;
+        vassert!(k >= fp && k + 4 <= fa, "NEVER: [C01,C10,C11] block kept by the initialiser (in the newly acquired chunk) is no longer in the allocated region");
+        vassert!(*kept == val, "NEVER: [C02,C11] block kept by the initialiser was modified");
+        let p = bump.try_alloc_layout(Layout::new::<u64>());
+        if let Ok(p) = p {
+            let p = p.as_ptr() as usize;
+            vassert!(p + 8 <= k || k + 4 <= p, "NEVER: [C01,C11] later allocation overlaps the block kept by the initialiser");
+        }
+        kani::cover!(true, "REACH: end of harness");
+    }
+}
+
+/// C11/C10: a try_fill slice that forces a new chunk and then fails.
+pub fn f7_try_fill_newchunk<const M: usize>() {
+    unsafe {
+        calls_reset();
+        pool_reset(0);
+        super::f6::CHUNK_ALIGN_OVERRIDE = 16;
+        DISPLACE = 0;
+        let cur = super::f6::build_list_at::<M, 1>(0); // current chunk is full
+        let bump = ManuallyDrop::new(Bump::<M> {
+            current_chunk_footer: Cell::new(cur),
+            allocation_limit: Cell::new(None),
+        });
+        let fail_at: usize = kani::any();
+        kani::assume(fail_at <= 2);
+        let r: Result<&mut [u32], u32> = bump.alloc_slice_try_fill_with(3, |i| {
+            note_call(i);
+            if i == fail_at {
+                Err(3)
+            } else {
+                Ok(i as u32)
+            }
+        });
+        vassert!(r.is_err() && NREC == 2, "NEVER: [C11] expected a failed fill in a newly acquired chunk");
+        let nf = bump.current_chunk_footer.get();
+        let fp = nf.as_ref().ptr.get().as_ptr() as usize;
+        let fa = nf.as_ptr() as usize;
+        let fd = nf.as_ref().data.as_ptr() as usize;
+        vassert!(fp >= fd && fp <= fa && fp & (M - 1) == 0, "NEVER: [C01,C10,C11] finger of the new chunk is outside its chunk after a failed fill");
+        vassert!(nf.as_ref().prev.get() == cur && cur.as_ref().ptr.get().as_ptr() as usize == cur.as_ref().data.as_ptr() as usize,
+                 "NEVER: [C10,C11] the previous chunk was changed by a failed fill in the new chunk");
+        let nreq = NREQ;
+        FORBID_ALLOC = true;
+        let again = bump.try_alloc_layout(Layout::array::<u32>(3).unwrap());
+        FORBID_ALLOC = false;
+        vassert!(again.is_ok() && NREQ == nreq, "NEVER: [C11] follow-up request of the same layout went to the global allocator");
+        if let Ok(p) = again {
+            let p = p.as_ptr() as usize;
+            vassert!(p >= fd && p + 12 <= fa, "NEVER: [C01,C11] follow-up block outside the current chunk");
+        }
+        let mut n = 0usize;
+        for (p, len) in bump.iter_allocated_chunks_raw() {
+            if n == 0 {
+                vassert!(p as usize >= fd && p as usize + len <= fa, "NEVER: [C10] newest slice yielded by chunk iteration is not inside the newest chunk");
+            }
+            n += 1;
+        }
+        vassert!(n == 2, "NEVER: [C10] chunk iteration does not yield both chunks");
+        kani::cover!(true, "REACH: end of harness");
     }
 }
 
@@ -568,6 +668,10 @@ f7cut!(f7_tw_same_inf_m16, 6, f7_tw_same::<16, false>());
 f7pool!(f7_tw_newchunk_try_m8, 5, f7_tw_newchunk::<8, true>());
 f7pool!(f7_tw_newchunk_inf_m4, 5, f7_tw_newchunk::<4, false>());
 f7pool!(f7_tw_newchunk_inf_m16, 5, f7_tw_newchunk::<16, false>());
+f7pool!(f7_tw_newchunk_nested_inf_m16, 8, f7_tw_newchunk_nested::<16, false>());
+f7pool!(f7_tw_newchunk_nested_try_m4, 8, f7_tw_newchunk_nested::<4, true>());
+f7pool!(f7_try_fill_newchunk_m4, 8, f7_try_fill_newchunk::<4>());
+f7pool!(f7_try_fill_newchunk_m16, 8, f7_try_fill_newchunk::<16>());
 f7cut!(f7_tw_nested_keep_m1, 6, f7_tw_nested::<1, false>());
 f7cut!(f7_tw_nested_keep_m16, 6, f7_tw_nested::<16, false>());
 f7cut!(f7_tw_nested_release_m1, 6, f7_tw_nested::<1, true>());
